@@ -60,6 +60,11 @@ let init () =
     | [w; al; _; a; b; c; d; e; f] ->
         fuel srect (JoinTri.jt_styled_bounding_box ((pt a b, pt c d), pt e f) (z_in w) (al_in al))
     | _ -> "BAD-ARGS");
+  (* join_poly_hyp w dx dy x1 y1 ...: do the hypotheses of the composition theorems (Model/Join.v poly_hyps) hold?
+     the implementation side answers 1 for every input in the range the generator draws from *)
+  register "join_poly_hyp" (function
+    | w :: dx :: dy :: rest -> b_out (Join.poly_hyps (pts_in rest) (z_in w) (pt dx dy))
+    | _ -> "BAD-ARGS");
   (* ---- hook level ---- *)
   register "joinh_extents" (function
     | [a; b; c; d; w; so] ->
